@@ -195,6 +195,10 @@ theorem placedLinesList_snoc (xs : List Frag) (f : Frag) (pie : Bool) (kids : Li
     simp only [List.cons_append, placedLinesList, ih false, List.append_assoc]
     simp
 
+@[simp] theorem placedLines_cutEnd (f : Frag) (pie : Bool) (box : PBox) :
+    placedLines f.cutEnd pie box = placedLines f pie box := by
+  cases f <;> cases box <;> simp [Frag.cutEnd, placedLines]
+
 theorem findEarlierPara_placed (id idx : Nat) (st : PStyle) (n : Nat) (g : Geo) (lines : List (Nat × Rat))
     (x' : Frag) (r : Resume) (h : findEarlierPara id idx st n g lines = some (x', r)) :
     x'.idx = idx ∧ ∀ pie box, ∀ p ∈ placedLines x' pie box, p ∈ placedLines (.para id idx st n g lines) pie box := by
@@ -248,7 +252,7 @@ theorem findEarlierGo_placed : (fs : List Frag) → ∀ (kept : List Frag) (r : 
             obtain ⟨rfl, rfl⟩ := h
             obtain ⟨hidx, hsub⟩ := findEarlierFrag_placed x x' r1 hfe
             intro p hp
-            simp only [placedLinesList, List.mem_append, List.append_nil, hidx] at hp ⊢
+            simp only [placedLinesList, List.mem_append, List.append_nil, idx_cutEnd, hidx, placedLines_cutEnd] at hp ⊢
             left
             split at hp
             · exact hsub _ _ p hp
